@@ -4,6 +4,7 @@ import IgrisModel.C16.Ext
 import IgrisModel.C16.WrapN
 import IgrisModel.C16.Guard
 import IgrisModel.C16.Delegate
+import IgrisModel.C16.Tie
 import IgrisModel.Common.Proto
 open Igris.Proto Igris.C16
 
@@ -83,15 +84,18 @@ def cbOf? (rules : List Rule) : Option Cb :=
 inductive St where
   | none
   /-- `timer_manager` over int64: number of timers, manager, last `now`, the unarmed timer (if any) -/
-  | mgr (n : Nat) (m : Mgr) (cur : Int) (unarmed : Option Nat)
+  | mgr (n : Nat) (m : Mgr) (cur : Int) (unarmed : Option Nat) (td : Bool)
+  /-- the outcome of the case depends on the order among timers with equal deadlines (which the property leaves
+  open): nothing more is compared until the next `reset` (the harness prints the same token; its oracle goes on) -/
+  | tainted
   /-- `timer_manager_basic<timer_spec<uint32_t>>`; op lines carry unbounded tick values -/
-  | mgrW (n : Nat) (m : MgrW) (cur : W32)
+  | mgrW (n : Nat) (m : MgrW) (cur : W32) (hz : Bool)
   | st (t : STimer)
   /-- stimer with tick values that may lie beyond `LONG_MAX` (read modulo 2^64) -/
   | stW (t : STimerW)
   /-- `timer_manager_basic<timer_spec<T>>` for a `w`-bit integral `T` (`sgn`: signed); every tick value of
   the op lines is moved by `off` before it is truncated to `w` bits -/
-  | mgrN (w : Nat) (sgn : Bool) (tsg : Bool) (off : Int) (n : Nat) (m : MgrN w) (cur : BitVec w)
+  | mgrN (w : Nat) (sgn : Bool) (tsg : Bool) (off : Int) (n : Nat) (m : MgrN w) (cur : BitVec w) (hz : Bool)
   /-- four `igris::delegate<void, int>` objects -/
   | dlg (slots : List Dlg)
 
@@ -108,9 +112,11 @@ def summaryW (n : Nat) (m : MgrW) (cur : W32) : String :=
     (match m.minimalInterval cur with | some d => toString d.toNat | none => "-")
 
 def showFires (fs : List Fire) : String :=
+  let fs := canonFires Fire.id (fun a b => a.deadline == b.deadline) fs
   if fs.isEmpty then "-" else ",".intercalate (fs.map fun f => toString f.id ++ ":" ++ toString f.deadline)
 
 def showFiresW (fs : List FireW) : String :=
+  let fs := canonFires FireW.id (fun a b => a.deadline == b.deadline) fs
   if fs.isEmpty then "-" else ",".intercalate (fs.map fun f => toString f.id ++ ":" ++ toString f.deadline.toNat)
 
 def showST (t : STimer) : String :=
@@ -135,9 +141,46 @@ def compactW (n : Nat) (m : MgrW) : MgrW :=
 /-- the repaired code compares deadlines by the sign of their difference -/
 def drvCmp : Cmp := .signedDiff
 
-def stepMgr (n : Nat) (m : Mgr) (cur : Int) (un : Option Nat) (op : String) (args : List String) :
+def tieToken : String := "tie-dependent"
+
+def hasSetter (rules : List Rule) : Bool :=
+  rules.any fun r => r.acts.any fun a => match a with | .setStart _ _ | .setInterval _ _ => true | _ => false
+
+def hasActs (rules : List Rule) : Bool := rules.any fun r => !r.acts.isEmpty
+
+def anyTieMgr (m : Mgr) : Bool := anyDup (m.lst.map fun j => (m.tm j).finish)
+
+def nextMgr (n : Nat) (cbx : CbX) (now : Int) (k : Nat) (m : Mgr) : Option (TieIn × Mgr) :=
+  match m.headDue now with
+  | Option.none => Option.none
+  | some h =>
+    let d := (m.tm h).finish
+    let r := execG cbx 1 now k m
+    some (⟨h, d, m.lst.filter (fun j => (m.tm j).finish == d), anyTieMgr m⟩, compact n r.1)
+
+/-- histories OUTSIDE the window precondition (`reset U|I|V`): "deadline order" is only defined while the pending
+deadlines lie within half of the counter range of each other - the comparison by the sign of the difference is then
+a strict total order on distinct deadlines.  `orderBad`: it is not (two deadlines exactly half the range apart, or a
+cycle): where `plan` inserts then depends on how the scan is written, which the property does not fix. -/
+def orderBad {w : Nat} (ds : List (BitVec w)) : Bool :=
+  let e (a b : BitVec w) : Bool := decide ((a - b).toInt < 0)
+  ds.any fun a => ds.any fun b =>
+    (a != b && e a b == e b a) || ds.any fun c => e a b && e b c && !e a c
+
+def orderBadW (m : MgrW) : Bool := orderBad (m.lst.map fun j => (m.tm j).finish)
+def orderBadN {w : Nat} (m : MgrN w) : Bool := orderBad (m.lst.map fun j => (m.tm j).finish)
+
+def nextW (n : Nat) (cb : CbW) (nw : W32) (k : Nat) (m : MgrW) : Option (TieIn × MgrW) :=
+  match m.headDue nw with
+  | Option.none => Option.none
+  | some h =>
+    let d := (m.tm h).finish
+    let r := execLoopW drvCmp cb nw 1 k m
+    some (⟨h, d.toNat, m.lst.filter (fun j => (m.tm j).finish == d), orderBadW m⟩, compactW n r.1)
+
+def stepMgr (n : Nat) (m : Mgr) (cur : Int) (un : Option Nat) (td : Bool) (op : String) (args : List String) :
     Option (St × String) :=
-  let ret (m' : Mgr) (cur' : Int) (s : String) : Option (St × String) := some (.mgr n (compact n m') cur' un, s)
+  let ret (m' : Mgr) (cur' : Int) (s : String) : Option (St × String) := some (.mgr n (compact n m') cur' un td, s)
   match op, args with
   | "plan", [i, st, iv] | "plan1", [i, st, iv] => do
     let i ← i.toNat?; let st ← st.toInt?; let iv ← iv.toInt?
@@ -176,31 +219,35 @@ def stepMgr (n : Nat) (m : Mgr) (cur : Int) (un : Option Nat) (op : String) (arg
     let vis (fs : List Fire) := match un with
       | some u => fs.filter (fun f => f.id != u)
       | Option.none => fs
+    let cbxT : CbX := fun k i => if some i = un then [] else cbXOf rules k i
+    if (td || hasActs rules) && tieScan (nextMgr n cbxT now) cbxT now td driverFuel 0 m {} then
+      some (.tainted, tieToken)
+    else
     match cbOf? rules, un with
     | some cb, Option.none =>
       let r := execLoop cb now driverFuel 0 m
       if r.2.2 then ret r.1 now ("f=" ++ showFires r.2.1 ++ " " ++ summary n r.1 now)
-      else some (.mgr n r.1 now un, "nonterm")
+      else some (.mgr n r.1 now un td, "nonterm")
     | _, _ =>
       let cbx : CbX := fun k i => if some i = un then [] else cbXOf rules k i
       let r := execG cbx driverFuel now 0 m
       match r.2.2 with
       | .done => ret r.1 now ("f=" ++ showFires (vis r.2.1) ++ " " ++ summary n r.1 now)
-      | .running => some (.mgr n r.1 now un, "nonterm")
-      | .uaf => some (.mgr n r.1 now un, "fault")
+      | .running => some (.mgr n r.1 now un td, "nonterm")
+      | .uaf => some (.mgr n r.1 now un td, "fault")
   | "qmin", [now] => do
     let now ← now.toInt?
-    some (.mgr n m now un, toString (m.minimalIntervalC 9223372036854775807 now))
+    some (.mgr n m now un td, toString (m.minimalIntervalC 9223372036854775807 now))
   | "q", [now] => do
     let now ← now.toInt?
-    some (.mgr n m now un, summary n m now)
+    some (.mgr n m now un td, summary n m now)
   | _, _ => Option.none
 
 def baseActs? (rules : List Rule) : Option CbW :=
   (cbOf? rules).map cbToW
 
-def stepMgrW (n : Nat) (m : MgrW) (cur : W32) (op : String) (args : List String) : Option (St × String) :=
-  let ret (m' : MgrW) (cur' : W32) (s : String) : Option (St × String) := some (.mgrW n (compactW n m') cur', s)
+def stepMgrW (n : Nat) (m : MgrW) (cur : W32) (hz : Bool) (op : String) (args : List String) : Option (St × String) :=
+  let ret (m' : MgrW) (cur' : W32) (s : String) : Option (St × String) := some (.mgrW n (compactW n m') cur' hz, s)
   match op, args with
   | "plan", [i, st, iv] | "plan1", [i, st, iv] => do
     let i ← i.toNat?; let st ← st.toInt?; let iv ← iv.toInt?
@@ -214,12 +261,15 @@ def stepMgrW (n : Nat) (m : MgrW) (cur : W32) (op : String) (args : List String)
     let now ← now.toInt?
     let rules ← parseRules? rules
     let cb ← baseActs? rules
+    if (hz || hasActs rules) && tieScan (nextW n cb (wr now)) (cbXOf rules) now hz driverFuel 0 m {} then
+      some (.tainted, tieToken)
+    else
     let r := execLoopW drvCmp cb (wr now) driverFuel 0 m
     if r.2.2 then ret r.1 (wr now) ("f=" ++ showFiresW r.2.1 ++ " " ++ summaryW n r.1 (wr now))
-    else some (.mgrW n r.1 (wr now), "nonterm")
+    else some (.mgrW n r.1 (wr now) hz, "nonterm")
   | "q", [now] => do
     let now ← now.toInt?
-    some (.mgrW n m (wr now), summaryW n m (wr now))
+    some (.mgrW n m (wr now) hz, summaryW n m (wr now))
   | _, _ => Option.none
 
 def showTick {w : Nat} (sgn : Bool) (x : BitVec w) : String :=
@@ -232,6 +282,7 @@ def summaryN {w : Nat} (sgn tsg : Bool) (n : Nat) (m : MgrN w) (cur : BitVec w) 
     (match m.minimalInterval cur with | some d => showTick sgn d | none => "-")
 
 def showFiresN {w : Nat} (sgn : Bool) (fs : List (FireN w)) : String :=
+  let fs := canonFires FireN.id (fun a b => a.deadline == b.deadline) fs
   if fs.isEmpty then "-" else ",".intercalate (fs.map fun f => toString f.id ++ ":" ++ showTick sgn f.deadline)
 
 def compactN {w : Nat} (n : Nat) (m : MgrN w) : MgrN w :=
@@ -244,10 +295,19 @@ def cbOffN (w : Nat) (off : Int) (cb : Cb) : CbN w := fun k i =>
     | .unplan j => ActionN.unplan j
     | .plan j s iv => ActionN.plan j (wrN w (s + off)) (wrN w iv)
 
-def stepMgrN (w : Nat) (sgn tsg : Bool) (off : Int) (n : Nat) (m : MgrN w) (cur : BitVec w) (op : String)
+def nextN {w : Nat} (sgn : Bool) (n : Nat) (cb : CbN w) (nw : BitVec w) (k : Nat) (m : MgrN w) :
+    Option (TieIn × MgrN w) :=
+  match m.headDue sgn nw with
+  | Option.none => Option.none
+  | some h =>
+    let d := (m.tm h).finish
+    let r := execLoopN sgn cb nw 1 k m
+    some (⟨h, d.toNat, m.lst.filter (fun j => (m.tm j).finish == d), orderBadN m⟩, compactN n r.1)
+
+def stepMgrN (w : Nat) (sgn tsg : Bool) (off : Int) (n : Nat) (m : MgrN w) (cur : BitVec w) (hz : Bool) (op : String)
     (args : List String) : Option (St × String) :=
   let ret (m' : MgrN w) (cur' : BitVec w) (s : String) : Option (St × String) :=
-    some (.mgrN w sgn tsg off n (compactN n m') cur', s)
+    some (.mgrN w sgn tsg off n (compactN n m') cur' hz, s)
   match op, args with
   | "plan", [i, st, iv] | "plan1", [i, st, iv] => do
     let i ← i.toNat?; let st ← st.toInt?; let iv ← iv.toInt?
@@ -262,12 +322,15 @@ def stepMgrN (w : Nat) (sgn tsg : Bool) (off : Int) (n : Nat) (m : MgrN w) (cur 
     let rules ← parseRules? rules
     let cb ← cbOf? rules
     let nw := wrN w (now + off)
+    if (hz || hasActs rules) && tieScan (nextN sgn n (cbOffN w off cb) nw) (cbXOf rules) now hz driverFuel 0 m {} then
+      some (.tainted, tieToken)
+    else
     let r := execLoopN sgn (cbOffN w off cb) nw driverFuel 0 m
     if r.2.2 then ret r.1 nw ("f=" ++ showFiresN tsg r.2.1 ++ " " ++ summaryN sgn tsg n r.1 nw)
-    else some (.mgrN w sgn tsg off n r.1 nw, "nonterm")
+    else some (.mgrN w sgn tsg off n r.1 nw hz, "nonterm")
   | "q", [now] => do
     let now ← now.toInt?
-    some (.mgrN w sgn tsg off n m (wrN w (now + off)), summaryN sgn tsg n m (wrN w (now + off)))
+    some (.mgrN w sgn tsg off n m (wrN w (now + off)) hz, summaryN sgn tsg n m (wrN w (now + off)))
   | _, _ => Option.none
 
 /-- target ids of the delegate harness: plain functions 1..3, member functions 11..13 (objects 1..3),
@@ -323,7 +386,7 @@ def constsLine : String :=
   " stimer.planed=" ++ tyName 32 true ++ " stimer_finish=" ++ tyName 64 false ++ " stimer_check=" ++ tyName 32 true ++
   " mgr[" ++ mgrTypes 64 true ++ "] i32[" ++ mgrTypes 32 true ++ "] u32[" ++ mgrTypes 32 false ++ "]" ++
   " u32s[time=" ++ tyName 32 false ++ ",diff=" ++ tyName 32 true ++ ",never=2147483647]" ++
-  " default=int64 delegate=" ++ toString (3 * 8)
+  " default=int64"
 
 /-- the scenario the harness runs before `main()`: plan (0,3) and (0,5), `exec(7)`, `minimal_interval(7)`, `empty()`,
 unplan both, `minimal_interval(7)`, two stimer checks, lock count -/
@@ -387,43 +450,60 @@ def stepLine (s : St) (line : String) : St × String :=
   match words line with
   | ["reset", "s"] => (.st {}, "ok")
   | ["reset", "S"] | ["reset", "T"] => (.stW {}, "ok")
-  | ["reset", "u", n] | ["reset", "U", n] =>
+  | ["reset", md, n] =>
     match n.toNat? with
-    | some n => (.mgrW n MgrW.init 0, "ok")
+    | some n =>
+      if md = "u" ∨ md = "U" then (.mgrW n MgrW.init 0 (md = "U"), "ok")
+      else if md = "i" ∨ md = "I" then (.mgrN 32 true true 0 n MgrN.init 0 (md = "I"), "ok")
+      -- timer_spec<uint32_t, int32_t>: unsigned ticks, the elapsed time and the interval are int32_t
+      else if md = "v" ∨ md = "V" then (.mgrN 32 true false 0 n MgrN.init 0 (md = "V"), "ok")
+      else if md = "z" then (.mgr n Mgr.init 0 (some (n - 1)) false, "ok")
+      else bad
     | Option.none => bad
   | ["reset", "C"] => (.none, "ok")
   | ["consts"] => (s, constsLine)
   | ["premain"] => (s, premainLine)
   | ["reset", "D"] => (.dlg (List.replicate 4 ({} : Dlg).clean), "ok")
-  | ["reset", "i", n] | ["reset", "I", n] =>
-    match n.toNat? with
-    | some n => (.mgrN 32 true true 0 n MgrN.init 0, "ok")
-    | Option.none => bad
-  | ["reset", "v", n] | ["reset", "V", n] =>
-    -- timer_spec<uint32_t, int32_t>: unsigned ticks, the elapsed time and the interval are int32_t
-    match n.toNat? with
-    | some n => (.mgrN 32 true false 0 n MgrN.init 0, "ok")
-    | Option.none => bad
   | ["reset", "l", n, off] =>
     match n.toNat?, off.toInt? with
-    | some n, some off => (.mgrN 64 true true off n MgrN.init (wrN 64 off), "ok")
+    | some n, some off => (.mgrN 64 true true off n MgrN.init (wrN 64 off) false, "ok")
     | _, _ => bad
-  | ["reset", "z", n] =>
-    match n.toNat? with
-    | some n => (.mgr n Mgr.init 0 (some (n - 1)), "ok")
-    | Option.none => bad
   | ["reset", n] =>
     match n.toNat? with
-    | some n => (.mgr n Mgr.init 0 Option.none, "ok")
+    | some n => (.mgr n Mgr.init 0 Option.none false, "ok")
     | Option.none => bad
   | op :: args =>
     match s with
     | .none => bad
-    | .mgr n m cur un => (stepMgr n m cur un op args).getD bad
-    | .mgrW n m cur => (stepMgrW n m cur op args).getD bad
+    | .tainted => (s, tieToken)
+    | .mgr n m cur un td =>
+      -- a setter that hits a planned timer, or an exec whose callbacks use setters: from here on the list may be
+      -- unsorted and what happens depends on the positions of timers with equal deadlines
+      let tdOp : Bool := match op, args with
+        | "sets", [i, _] | "seti", [i, _] => (i.toNat?.map (fun i => m.lst.contains i)).getD false
+        | "exec", [_, rules] => ((parseRules? rules).map hasSetter).getD false
+        | _, _ => false
+      let td' := td || tdOp
+      match stepMgr n m cur un td' op args with
+      | some (.mgr n' m' cur' un' t', r) =>
+        if td' && (anyTieMgr m || anyTieMgr m') then (.tainted, tieToken) else (.mgr n' m' cur' un' t', r)
+      | some x => x
+      | Option.none => bad
+    | .mgrW n m cur hz =>
+      match stepMgrW n m cur hz op args with
+      | some (.mgrW n' m' c' h', r) =>
+        if hz && (orderBadW m || orderBadW m') then (.tainted, tieToken) else (.mgrW n' m' c' h', r)
+      | some x => x
+      | Option.none => bad
     | .st t => (stepST t op args).getD bad
     | .stW t => (stepSTW t op args).getD bad
-    | .mgrN w sgn tsg off n m cur => (stepMgrN w sgn tsg off n m cur op args).getD bad
+    | .mgrN w sgn tsg off n m cur hz =>
+      if hz && orderBadN m then (.tainted, tieToken) else
+      match stepMgrN w sgn tsg off n m cur hz op args with
+      | some (.mgrN w' sgn' tsg' off' n' m' c' h', r) =>
+        if hz && orderBadN m' then (.tainted, tieToken) else (.mgrN w' sgn' tsg' off' n' m' c' h', r)
+      | some x => x
+      | Option.none => bad
     | .dlg sl => (stepDlg sl op args).getD bad
   | _ => bad
 
